@@ -633,6 +633,15 @@ func checkC07(c *Ctx) {
 	c.c07Mem(sm)
 	c.c07File(sm)
 	c.c07Latest()
+	// the model treats a failed or interrupted add as a no-op: a mailbox directory without an
+	// index (which such an add leaves behind) must read as an empty mailbox, as in the memory
+	// store (decided by C11's load-path rule)
+	nA := c.borrow(func(c2 *Ctx) {
+		if fm := c2.fsModel(); fm != nil {
+			c2.c11AbsentIndex(fm)
+		}
+	}, "C11/READ/absent-index", "C07/EMPTY/absent-index", "file store: on the index load path every existence probe is made on the index itself, so a directory without index is an empty mailbox and not an error for list / get / mark-seen / remove / add")
+	r.Floor("C07/EMPTY/absent-index", "borrowed obligations", nA, 1)
 	c.c07Exhaustive()
 }
 
